@@ -91,3 +91,21 @@ Definition join_atoms (kd : jkind) (ls rs : list jrec) : list (jrec * option jre
   join_model atom_cmp fst fst kd ls rs.
 Definition nested_atoms (kd : jkind) (ls rs : list jrec) : list (jrec * option jrec) :=
   nested atom_cmp fst fst kd ls rs.
+
+(* Descending mode as the code has it (open finding): the merge walk compares
+   with the reverse of the ascending order (nulls first), while the sort that
+   join.New inserts in front of an undeclared input places nulls last. *)
+Definition atom_cmp_desc (a b : atom) : comparison := atom_cmp b a.
+
+Definition atom_cmp_desc_nulls_last (a b : atom) : comparison :=
+  match atom_rank a, atom_rank b with
+  | 2%N, 2%N => Eq
+  | 2%N, _ => Gt
+  | _, 2%N => Lt
+  | _, _ => atom_cmp b a
+  end.
+
+(* left input undeclared (sorted by the inserted sort), right input declared
+   descending and given in the lake's descending order *)
+Definition join_desc_left_inserted (kd : jkind) (ls rs : list jrec) : list (jrec * option jrec) :=
+  walk atom_cmp_desc fst fst kd (sortk atom_cmp_desc_nulls_last fst ls) rs None.
